@@ -220,7 +220,8 @@ func applyCanary(repo, diff, dir string) (map[string][]byte, error) {
 	var rels []string
 	for _, line := range strings.Split(string(b), "\n") {
 		if strings.HasPrefix(line, "+++ b/") {
-			rels = append(rels, strings.TrimSpace(strings.TrimPrefix(line, "+++ b/")))
+			name, _, _ := strings.Cut(strings.TrimPrefix(line, "+++ b/"), "\t") // diff -u appends a timestamp
+			rels = append(rels, strings.TrimSpace(name))
 		}
 	}
 	if len(rels) == 0 {
